@@ -159,7 +159,7 @@ func (t *MulticastUDPTransport) runReceive() {
 	defer t.Close()
 
 	for t.running.Load() {
-		err := readTlvStream(t.recvConn, func(b []byte) {
+		err := readTlvDatagrams(t.recvConn, func(b []byte) {
 			t.nInBytes += uint64(len(b))
 			t.linkService.handleIncomingFrame(b)
 		}, func(err error) bool {
